@@ -96,6 +96,24 @@ def run_case(case, ctx):
         return
     mps.eval()
     arng = random.Random(case['seed'] + 3)
+    if (case['seed'] // 2) % 2 == 1:
+        # clipping thresholds away from their initial value, as after training
+        mpslib.perturb_parameters(mps, arng, weights=False)
+        ctx.cls('clip-values-moved')
+    # the property is about the model object, not about a fresh one: in every other case the same
+    # eval-mode wrapper is given a second set of coefficients (and moved biases / clipping
+    # thresholds) after the first export, with no training-mode forward pass in between
+    n_draws = 2 if case['seed'] % 2 == 1 else 1
+    for draw in range(n_draws):
+        if draw == 1:
+            ctx.cls('second-draw-on-the-same-wrapper')
+            mpslib.perturb_parameters(mps, arng)
+        if _one_draw(case, ctx, prog, mps, arng, temp, draw) is None:
+            return
+
+
+def _one_draw(case, ctx, prog, mps, arng, temp, draw):
+    from plinio.methods.mps.quant.nn import QuantIdentity
     assign = mpslib.assign_coefficients(mps, arng)
     for f in prog['features']:
         ctx.cls('feat:' + f)
@@ -207,7 +225,9 @@ def run_case(case, ctx):
     not_initial = any(a['precision'][a['argmax']] != max(a['precision']) for a in assign
                       if isinstance(a['argmax'], int))
     if multi and not_initial:
-        ctx.nontriv((case['prog_seed'], tuple(case['w_prec']), tuple(case['a_prec']), case['seed']))
+        ctx.nontriv((case['prog_seed'], tuple(case['w_prec']), tuple(case['a_prec']), case['seed'],
+                     draw))
     ctx.sample({'features': prog['features'], 'w_prec': case['w_prec'], 'a_prec': case['a_prec'],
                 'temperature': round(temp, 4), 'gumbel': case['gumbel'], 'hard': case['hard'],
                 'summary': {k: {kk: vv for kk, vv in v.items()} for k, v in list(summ.items())[:5]}})
+    return True
